@@ -68,7 +68,7 @@ class VMachine:
 
     def __init__(self, config, modes=None, shows=None, kind="plain", platform="virtual",
                  mock_data=None, patches=None, early_init=None, extra_files=None,
-                 mock_loop=None, start_timeout=60):
+                 mock_loop=None, start_timeout=60, use_bcp=False):
         guard_import()
         from mpf.tests.MpfTestCase import MpfTestCase
         from mpf.tests.MpfGameTestCase import MpfGameTestCase
@@ -129,6 +129,9 @@ class VMachine:
 
             def get_platform(self_inner):
                 return platform
+
+            def get_use_bcp(self_inner):
+                return use_bcp
 
             def _get_mock_data(self_inner):
                 return mock_data or {}
